@@ -165,7 +165,15 @@ def check(run: Run) -> None:
     # ---------------------------------------------------------------- R09.4
     fi = run.project.mod("mcp.validate").func("ValidateTool.execute")
     cfg = CFG(fi.node)
-    binds = list(_assignments(fi, "doc"))
+    # the document variable is the one bound from parse_with_warnings(...) (first element), whatever it is called
+    docvar = "doc"
+    contentvar = "content"
+    for a in walk_no_nested(fi.node):
+        if isinstance(a, ast.Assign) and isinstance(a.value, ast.Call) and ast.unparse(a.value.func) == "parse_with_warnings" and isinstance(a.targets[0], ast.Tuple) and isinstance(a.targets[0].elts[0], ast.Name):
+            docvar = a.targets[0].elts[0].id
+            if a.value.args and isinstance(a.value.args[0], ast.Name):
+                contentvar = a.value.args[0].id
+    binds = list(_assignments(fi, docvar))
     ok_binds = True
     n_repair = 0
     for st, v in binds:
@@ -186,7 +194,7 @@ def check(run: Run) -> None:
     if not emits:
         raise AnalysisError("ValidateTool.execute: emit() call not found")
     for e in emits:
-        ok = len(e.args) == 1 and is_name(e.args[0], "doc") and not e.keywords
+        ok = len(e.args) == 1 and is_name(e.args[0], docvar) and not e.keywords
         run.instance("R09.4", fi.module.loc(e), f"ValidateTool.execute: `{norm(e)}` is plain canonicalisation (no options)", ok=ok)
         if not ok:
             run.violation("R09.4", fi.module, fi.qualname, e, "octave_validate emits with options or something other than the parsed document: canonical differs from plain canonicalisation of the input")
@@ -195,7 +203,7 @@ def check(run: Run) -> None:
     for n in walk_no_nested(fi.node):
         if isinstance(n, ast.Assign) and any(isinstance(t, ast.Subscript) and isinstance(t.slice, ast.Constant) and t.slice.value == "canonical" for t in n.targets):
             v = n.value
-            ok = (isinstance(v, ast.Name) and v.id in emit_vars) or (isinstance(v, ast.Constant) and v.value is None) or (isinstance(v, ast.IfExp) and isinstance(v.body, ast.Constant) and v.body.value is None and is_name(v.orelse, "content")) or (isinstance(v, ast.Call) and ast.unparse(v.func) == "emit")
+            ok = (isinstance(v, ast.Name) and v.id in emit_vars) or (isinstance(v, ast.Constant) and v.value is None) or (isinstance(v, ast.IfExp) and isinstance(v.body, ast.Constant) and v.body.value is None and is_name(v.orelse, contentvar)) or (isinstance(v, ast.Call) and ast.unparse(v.func) == "emit")
             run.instance("R09.4", fi.module.loc(n), f"ValidateTool.execute: `{norm(n)}`", ok=ok)
             if not ok:
                 run.violation("R09.4", fi.module, fi.qualname, n, "the canonical field is set from something other than emit(doc), None (diff_only) or the untouched input (error path)")
